@@ -118,7 +118,7 @@ def operand(P, it, b, k=0):
     if form == "call":
         return f"({{ rt::opnd({i}); {c} }})"
     if form == "block":
-        reads = ", ".join(f"({rb}, rt::snap(&{name_of(rb)}))" for rb in it.get("reads", []))
+        reads = ", ".join(f"({rb}, rt::snap(&{name_of(rb)}), rt::wrapped(&{name_of(rb)}))" for rb in it.get("reads", []))
         # a `let mut` name must be usable as such wherever it can be read
         muts = "".join(f"rt::mutate(&mut {name_of(rb)}); " for rb in it.get("reads", []) if P["branches"][rb]["name"] == "letmut")
         return f"{{ {muts}rt::cap({i}, &[{reads}]); {c} }}"
